@@ -9,6 +9,7 @@ import Nstd.Hash.PtrModel
     new t cap | newdef t | copy t | assign t | append t k v | prepend t k v | insert t pos k v
     remove t k | removeAt t pos | removeVal t pos | removeFront t | removeBack t | clear t | swap t
     appendAll t | removeAll t | setval t k v | hashstr <hex>
+    hashnum w s x                        integral hash overloads: width, signedness, bit pattern
     wb t                                 white-box: capacity, bucket chains, free list, order list as item ids
 
   After every op one line:
@@ -153,6 +154,11 @@ def stepLine (d : DState) (ws : List String) : DState × String :=
     match tab t with
     | some t => (d, both (whiteBox (d.st.get t)) (whiteBoxPtr (d.pst.get t)))
     | none => (d, "bad-op")
+  | ["hashnum", w, sg, x] =>
+    match w.toNat?, sg.toNat?, x.toNat? with
+    | some w, some sg, some x =>
+      if (w = 8 ∨ w = 16 ∨ w = 32 ∨ w = 64) ∧ x < 2 ^ w then (d, s!"num {hashInt w (sg != 0) x}") else (d, "bad-op")
+    | _, _, _ => (d, "bad-op")
   | ["hashstr", x] =>
     match fromHex x with
     | some bs =>
